@@ -507,13 +507,13 @@ func (r *run) runStream() {
 	// cumulative number of id-bearing parents exceeds the 16-bit id range
 	marathon := false
 	if prop == "C01" || prop == "C02" || prop == "C03" {
-		rate := 2500
+		rate := 1500
 		if thorough {
 			rate = 400
 		}
 		if t.Chance(core.Gen, 1, rate) {
 			marathon = true
-			hp.nBatches = 72
+			hp.nBatches = 84 // 75 dense batches of 1,000 parents: more than 65,535 in total
 			r.probe("marathon_stream_over_65535_parents_in_total")
 		}
 	}
